@@ -150,6 +150,7 @@ package fdo
 //@   props C01 C10(sweep)
 //@   sweep bounds,panic,make,nilmem
 //@   callassert Send#1: @hello arg2 == 60 && u(unwrap(arg3)) == u(hello) && arg4 == nil
+//@   callassert Send#1: @fresh filledfrom(proveOVNonce) == SystemRandom()
 //@   ensures @hellohash ? err == nil ==> bytes(proveOVHdr.Payload.Val.HelloDeviceHash.Value) == digest(happ(hinit(u(hashfn(proveOVHdr.Payload.Val.HelloDeviceHash.Algorithm))), Enc(u(hello))))
 //@   ensures @sig ? err == nil ==> SigOk(u(proveOVHdr.Sign1), u(key))
 //@   ensures @nonce ? err == nil ==> forall k in 0..16: proveOVHdr.Payload.Val.NonceTO2ProveOV[k] == proveOVNonce[k]
@@ -339,6 +340,7 @@ package fdo
 //@   sweep bounds,panic,make
 //@   modifies nothing
 //@   callassert Send#1: @msg64 arg2 == 64
+//@   callassert Send#1: @fresh filledfrom(setupDeviceNonce) == SystemRandom()
 //@   ensures @nonce ? err == nil ==> forall k in 0..16: setupDevice.Payload.Val.NonceTO2SetupDv[k] == setupDeviceNonce[k]
 //@   ensures @partial ? err == nil && result1 != nil ==> u(result1.GUID) == u(setupDevice.Payload.Val.GUID) && u(result1.RvInfo) == u(setupDevice.Payload.Val.RendezvousInfo) && u(result1.ManufacturerKey) == u(setupDevice.Payload.Val.Owner2Key)
 //@   ensures! err == nil ==> DeviceProven(u(sess))
@@ -581,12 +583,12 @@ package fdo
 //@   sweep bounds,panic,make,nilmem,div
 //@   callsites NextServiceInfo 1
 //@   callsites Transition 1
-//@   callsites Encode 2
+//@   callsites Encode 1
 //@   callassert NextServiceInfo#1: @onlynew !prevActive
 //@   callassert NextServiceInfo#1: @key u(arg1) == u(moduleName) && u(arg2) == u("active")
 //@   callassert Transition#1: @changed arg1 != prevActive
-//@   callassert Encode#2: @unknown dyntype(mod, "serviceinfo.UnknownModule") && moduleName != "devmod" ==> !active
-//@   callassert Encode#2: @value u(unwrap(arg1)) == u(active)
+//@   callassert Encode#1: @unknown dyntype(mod, "serviceinfo.UnknownModule") && moduleName != "devmod" ==> !active
+//@   callassert Encode#1: @value u(unwrap(arg1)) == u(active)
 //@   ensures @unknown err == nil && !prevActive && dyntype(mod, "serviceinfo.UnknownModule") && moduleName != "devmod" ==> !result0
 //@   ensures @reported ? err == nil ==> result0 == active
 
@@ -708,6 +710,7 @@ package fdo
 //@   callassert Suite.New#1: @args u(arg0) == u(hello.KexSuiteName) && len(arg1) == 0 && arg2 == hello.CipherSuite
 //@   callassert SetXSession#1: @session u(arg2) == u(hello.KexSuiteName) && u(arg3) == u(sess)
 //@   callassert SetProveDeviceNonce#1: @nonce u(arg2) == u(proveDeviceNonce)
+//@   callassert SetProveDeviceNonce#1: @fresh filledfrom(arg2) == SystemRandom()
 //@   ensures @nonnil err == nil ==> result0 != nil
 
 // a module the device does not implement is represented by the UnknownModule value (the
